@@ -350,6 +350,8 @@ def run_ticks(ctx):
     terms, kept = [], []
     near = 0
     for ppq, mpq, t in cases:
+        if len(ctx.violations) >= 5:
+            break
         exact = Fraction(10 ** 6) * ppq * Fraction(t) / mpq
         frac = exact - math.floor(exact)
         # near-tie rule (DESIGN 2.4): float evaluation of 1e6*ppq*t/mpq may land on the other side
